@@ -22,7 +22,7 @@ fn line(parts: Vec<Part>) -> Stmt {
 
 /// names of the slot items (index = alphabet position); `i` = slot index for unique labels
 pub const ITEM_NAMES: &[&str] = &[
-    "text", "asg", "print", "glue-end", "glue-start", "tag", "cond-inline", "seq", "cycle", "once", "if-block", "fcall-value", "fcall-text", "fstmt-text", "tunnel", "temp", "string", "choice-basic", "choice-bracket", "choice-label", "choice-cond", "choice-fallback", "choice-nested", "thread", "count-knot", "turns-since", "choice-count", "divert-k2-back", "fcall-nested",
+    "text", "asg", "print", "glue-end", "glue-start", "tag", "cond-inline", "seq", "cycle", "once", "if-block", "fcall-value", "fcall-text", "fstmt-text", "tunnel", "temp", "string", "choice-basic", "choice-bracket", "choice-label", "choice-cond", "choice-fallback", "choice-nested", "thread", "count-knot", "turns-since", "choice-count", "divert-k2-back", "fcall-nested", "tag-alone", "line-divert",
 ];
 
 pub fn item(a: usize, i: usize) -> Vec<Stmt> {
@@ -48,6 +48,13 @@ pub fn item(a: usize, i: usize) -> Vec<Stmt> {
         // the first text of the outer function comes from a nested call, then the outer goes on
         "fcall-nested" => vec![line(vec![p(Expr::Call("fouter".into(), vec![]))])],
         "tunnel" => vec![Stmt::Tunnel("tun".into())],
+        // a tag on a line of its own belongs to the next line that has text (T2)
+        "tag-alone" => vec![Stmt::Line { parts: vec![], tags: vec![format!("solo{i}")], divert: None }],
+        // text and divert on one line: no line end between the text and what the target prints (T1)
+        "line-divert" => vec![
+            Stmt::Line { parts: vec![t("Going on "), p(x()), t(" ")], tags: vec![], divert: Some(Target::Label(lab("hop"))) },
+            Stmt::Weave(Weave { choices: vec![], gather: Some(Gather { label: Some(lab("hop")), parts: vec![t("landed "), p(Expr::Count(lab("hop"))), t(".")] }) }),
+        ],
         "temp" => vec![
             Stmt::Assign { name: lab("tmp"), expr: Expr::bin(x(), BinOp::Mul, Expr::Int(2)), kind: AssignKind::Set, temp_decl: true },
             line(vec![t("Temp "), p(Expr::var(&lab("tmp"))), t(".")]),
@@ -482,6 +489,94 @@ pub fn calibration() -> Vec<(&'static str, Program)> {
                     "test",
                     vec![line(vec![Part::Seq(SeqKind::Stopping, vec!["I entered the casino.".into(), "I entered the casino again.".into(), "Once more, I went inside.".into()])]), weave(vec![ch(true, "", "Try again", "", vec![to("test")])], None)],
                 )],
+            ),
+        ),
+        (
+            "conditional/cycle.ink.json",
+            prog(
+                vec![],
+                vec![to("test")],
+                vec![knot("test", vec![line(vec![Part::Seq(SeqKind::Cycle, vec!["I held my breath.".into(), "I waited impatiently.".into(), "I paused.".into()])]), weave(vec![ch(true, "", "Try again", "", vec![to("test")])], None)])],
+            ),
+        ),
+        (
+            "conditional/once.ink.json",
+            prog(
+                vec![],
+                vec![to("test")],
+                vec![knot("test", vec![line(vec![Part::Seq(SeqKind::Once, vec!["Would my luck hold?".into(), "Could I win the hand?".into()])]), weave(vec![ch(true, "", "Try again", "", vec![to("test")])], None)])],
+            ),
+        ),
+        (
+            "conditional/condtext.ink.json",
+            prog(
+                vec![],
+                vec![tl("\"We are going on a trip,\" said Monsieur Fogg."), weave(vec![ch(false, "", "The wager.", "", vec![to("know_about_wager")]), ch(false, "", "I was surprised.", "", vec![to("i_stared")])], None)],
+                vec![
+                    knot("know_about_wager", vec![tl("I had heard about the wager."), to("i_stared")]),
+                    knot(
+                        "i_stared",
+                        vec![
+                            tl("I stared at Monsieur Fogg."),
+                            Stmt::If {
+                                branches: vec![(Expr::Count("know_about_wager".into()), vec![line(vec![Part::Glue, t(" \"But surely you are not serious?\" I demanded.")])])],
+                                else_: Some(vec![line(vec![Part::Glue, t(" \"But there must be a reason for this trip,\" I observed.")])]),
+                            },
+                            tl("He said nothing in reply, merely considering his newspaper with as much thoroughness as entomologist considering his latest pinned addition."),
+                            end(),
+                        ],
+                    ),
+                ],
+            ),
+        ),
+        (
+            "conditional/ifelse.ink.json",
+            prog(
+                vec![("x", Expr::Int(0)), ("y", Expr::Int(3))],
+                vec![
+                    Stmt::If {
+                        branches: vec![(Expr::bin(x(), BinOp::Gt, Expr::Int(0)), vec![Stmt::set("y", Expr::bin(x(), BinOp::Sub, Expr::Int(1)))])],
+                        else_: Some(vec![Stmt::set("y", Expr::bin(x(), BinOp::Add, Expr::Int(1)))]),
+                    },
+                    Stmt::Line { parts: vec![t("The value is "), p(Expr::var("y")), t(". ")], tags: vec![], divert: Some(Target::End) },
+                ],
+                vec![],
+            ),
+        ),
+        (
+            "variable/varcalc.ink.json",
+            prog(
+                vec![("knows", Expr::Bool(false)), ("x", Expr::Int(2)), ("y", Expr::Int(3)), ("c", Expr::Int(4)), ("str", Expr::Str("".into()))],
+                vec![
+                    Stmt::set("knows", Expr::Bool(true)),
+                    Stmt::set("x", Expr::bin(Expr::bin(Expr::bin(x(), BinOp::Mul, x()), BinOp::Sub, Expr::bin(Expr::var("y"), BinOp::Mul, Expr::var("y"))), BinOp::Add, Expr::var("c"))),
+                    Stmt::set("y", Expr::bin(Expr::bin(Expr::Int(2), BinOp::Mul, x()), BinOp::Mul, Expr::var("y"))),
+                    Stmt::set("str", Expr::Str("a".into())),
+                    Stmt::Assign { name: "str".into(), expr: Expr::Str("a".into()), kind: AssignKind::Add, temp_decl: false },
+                    line(vec![t("The values are "), p(Expr::var("knows")), t(" and "), p(x()), t(" and "), p(Expr::var("y")), t(" and "), p(Expr::var("str")), t(".")]),
+                    end(),
+                ],
+                vec![],
+            ),
+        ),
+        (
+            "variable/varstringinc.ink.json",
+            prog(
+                vec![("v", Expr::Str("".into()))],
+                vec![Stmt::set("v", Expr::Str("a".into())), weave(vec![ch(false, "inc", "", "", vec![Stmt::set("v", Expr::bin(Expr::var("v"), BinOp::Add, Expr::Str("b".into()))), line(vec![p(Expr::var("v")), t(".")]), end()])], None)],
+                vec![],
+            ),
+        ),
+        (
+            "tags/tags.ink.json",
+            prog(
+                vec![("x", Expr::Int(2))],
+                vec![
+                    Stmt::Line { parts: vec![], tags: vec!["author: Joe".into()], divert: None },
+                    Stmt::Line { parts: vec![], tags: vec!["title: My Great Story".into()], divert: None },
+                    tl("This is the content"),
+                ],
+                vec![],
             ),
         ),
         (
